@@ -227,8 +227,12 @@ def _fit_columns(cls):
             'columns.append(column_name)', 'univariates.append(univariate)']
     if len(lb) != len(want):
         raise Untranslatable(f'{GC_FILE}:{loop.lineno}', f'_fit_columns loop body has {len(lb)} statements, expected {len(want)}')
-    for node, text in zip(lb, want):
+    for node, text in zip(lb[:2], want[:2]):
         _expect(node, text, where, 'loop body')
+    # the two appends go to two different lists: either order is the same loop
+    if sorted(_src(n) for n in lb[2:]) != sorted(want[2:]):
+        _expect(lb[2], want[2], where, 'loop body')
+        _expect(lb[3], want[3], where, 'loop body')
     _expect(body[3], 'return (columns, univariates)', where, 'result')
     # fit stores the pair, computed from the validated input
     fit = find_method(cls, 'fit')
